@@ -264,6 +264,18 @@ pub fn main(args: &[String]) -> i32 {
         m.insert("case".into(), json!(n));
         m.insert("seeds".into(), Value::Array(seeds_out));
         m.insert("steps".into(), Value::Array(steps_out));
+        if rec.get("final").and_then(|f| f.as_bool()).unwrap_or(false) {
+            // the end state of the session: every pool entry observed once more (entries are immutable values: what a later
+            // call did to a clone must not show in the original)
+            let fin: Vec<Value> = pool.iter().map(|e| match e {
+                None => json!({"outcome": "none"}),
+                Some(e) => {
+                    let e2 = e.clone();
+                    project(guarded(move || -> ExResult<Ex> { Ok(e2) })).0
+                }
+            }).collect();
+            m.insert("final".into(), Value::Array(fin));
+        }
         for k in ["table", "point", "tag"] {
             if let Some(t) = rec.get(k) {
                 m.insert(k.into(), t.clone());
